@@ -468,6 +468,17 @@ Corrupt_SymbolThenCarryOn ==
   /\ ntok' = ntok + 1
   /\ UNCHANGED <<ph, plain, zl, fin, ll, dl, lcw, dcw, pdl, pdcw, nblk>>
 
+\* a distance code made of one symbol whose length is 2..15 (incomplete; only a single ONE-bit code
+\* is tolerated), in an otherwise complete final block with a literal and the end-of-block code
+Corrupt_SingleLongDistCode ==
+  /\ CanStartBlock
+  /\ \E dlen \in {2, 7, 15}, dsym \in {0, 5} :
+       LET lgood == MkLens(257, <<65, 66, 256, 100>>, "balanced")
+           dbad == [i \in 1..(dsym + 1) |-> IF i = dsym + 1 THEN dlen ELSE 0]
+           lcwg == AssignCodes(lgood)
+       IN BadThenEnd(bits \o HdrBits(TRUE, 2) \o DynHeaderBits(257, dsym + 1, lgood \o dbad, FALSE, "all19")
+                          \o SymBits(lgood, lcwg, 65) \o SymBits(lgood, lcwg, 256), "dist_incomplete")
+
 \* HLIT = 30 (287 lengths) or HDIST = 30 (31 lengths) in front of otherwise complete, valid tables,
 \* one literal and the end-of-block code
 Corrupt_TableSizesThenValid ==
@@ -537,7 +548,7 @@ GNext ==
   \/ GenEndBlock
   \/ Finish
   \/ Corrupt_ZlibHeader \/ Corrupt_BlockType3 \/ Corrupt_StoredLen \/ Corrupt_TableSizes \/ Corrupt_Lens \/ Corrupt_RunPastEnd
-  \/ Corrupt_Symbol \/ Corrupt_SymbolThenValid \/ Corrupt_SymbolThenCarryOn \/ Corrupt_TableSizesThenValid \/ Corrupt_DistBeforeStart \/ Corrupt_UnusedCode \/ Corrupt_Trailer \/ Corrupt_StaleDistCode
+  \/ Corrupt_Symbol \/ Corrupt_SymbolThenValid \/ Corrupt_SymbolThenCarryOn \/ Corrupt_TableSizesThenValid \/ Corrupt_SingleLongDistCode \/ Corrupt_DistBeforeStart \/ Corrupt_UnusedCode \/ Corrupt_Trailer \/ Corrupt_StaleDistCode
 
 \* the stream as bytes
 RECURSIVE PackBytes(_, _)
